@@ -4,32 +4,36 @@ import P9Model.Wire.Registry
 namespace P9.Driver
 open P9 P9.Gen
 
-def findGen (typ : Nat) : Option GenMsg := Gen.messages.find? (·.typ == typ)
+/-!
+The drivers below are the *property monitors*: they use the protocol table `Spec.messages`
+only (never `Gen`), so a change of the code's layouts cannot move the expectation with it.
+-/
 
-/-- build the model message from `f:<name>=<value>` tokens, in wire (encode) order. -/
-def msgOfTokens (g : GenMsg) (t : Tokens) : Msg :=
-  { vals := g.enc.map fun f => parseVal (t.getD ("f:" ++ f.name) "0"),
-    payload := if g.payEnc == .data then t.bytes "f:payload" else [] }
+def findSpec (typ : Nat) : Option MsgDesc := (Spec.messages.find? (·.typ == typ)).map (·.desc)
 
-def showMsg (pfx : String) (g : GenMsg) (m : Msg) : List String :=
-  let fs := (g.dec.zip m.vals).map fun (f, v) => pfx ++ f.name ++ "=" ++ showVal v
-  if g.payDec == .data then fs ++ [pfx ++ "payload=" ++ hex m.payload] else fs
+/-- build the message from `f:<name>=<value>` tokens, in the protocol's field order. -/
+def msgOfTokens (d : MsgDesc) (t : Tokens) : Msg :=
+  { vals := d.fields.map fun f => parseVal (t.getD ("f:" ++ f.name) "0"),
+    payload := if d.pay == .data then t.bytes "f:payload" else [] }
+
+def showMsg (pfx : String) (d : MsgDesc) (m : Msg) : List String :=
+  let fs := (d.fields.zip m.vals).map fun (f, v) => pfx ++ f.name ++ "=" ++ showVal v
+  if d.pay == .data then fs ++ [pfx ++ "payload=" ++ hex m.payload] else fs
 
 def showOutcome (idx : String) : Outcome → List String
   | .connErr => [s!"recv{idx}=conn"]
   | .protoErr tag => [s!"recv{idx}=proto:{tag}"]
-  | .msg tag d m =>
-    match findGen d.typ with
-    | some g => s!"recv{idx}=msg:{tag}:{d.typ}" :: showMsg (if idx.isEmpty then "d:" else s!"d{idx}:") g m
-    | none => [s!"recv{idx}=msg:{tag}:{d.typ}"]
+  | .msg tag d m => s!"recv{idx}=msg:{tag}:{d.typ}" :: showMsg (if idx.isEmpty then "d:" else s!"d{idx}:") d m
+
+def maxLen : Nat := 4 * 1024 * 1024
 
 def k1 (t : Tokens) : String :=
-  match findGen (t.nat "typ") with
+  match findSpec (t.nat "typ") with
   | none => "unknown-type"
-  | some g =>
-    let m := msgOfTokens g t
-    let fr := frame g.desc (t.nat "tag") m
-    let r := recv1 (4 * 1024 * 1024) Gen.C.maximumLength registry fr
+  | some d =>
+    let m := msgOfTokens d t
+    let fr := frame d (t.nat "tag") m
+    let r := recv1 maxLen maxLen specRegistry fr
     " ".intercalate (("frame=" ++ hex fr) :: showOutcome "" r.out)
 
 /-- K2: a whole byte stream through the receive loop. Per call: outcome and bytes consumed. -/
@@ -40,7 +44,7 @@ def k2 (t : Tokens) : String :=
     match fuel with
     | 0 => acc
     | fuel+1 =>
-      let r := recv1 msize Gen.C.maximumLength registry s
+      let r := recv1 msize maxLen specRegistry s
       let consumed := s.length - r.rest.length
       let acc := acc ++ showOutcome (toString i) r.out ++ [s!"c{i}={consumed}"] ++
         [s!"a{i}={r.allocs.foldl max 0}"]
